@@ -14,6 +14,7 @@ import OrasModel.Driver.Au
 import OrasModel.Driver.Sc
 import OrasModel.Driver.Rf
 import OrasModel.Driver.Pg
+import OrasModel.Driver.Rm
 open Oras.Driver
 
 structure DState where
@@ -24,6 +25,7 @@ structure DState where
   o : O.St := {}
   cd : Cd.St := {}
   au : Au.St := {}
+  rm : Rm.St := {}
 
 def answer (r : Option (α × String × String)) (st : DState) (upd : α → DState) : DState × String :=
   match r with
@@ -71,6 +73,8 @@ def handle (st : DState) (line : String) : DState × String :=
           let w := if o'.why.isEmpty then "" else " w=" ++ o'.why
           ({ st with o := o' }, s!"m={m} s={s}{w}")
         | none => (st, "bad-op"))
+  | "rm" :: rest => answer (Rm.step st.rm rest) st (fun c => { st with rm := c })
+  | "sk" :: rest => answer (Rm.stepSk st.rm rest) st (fun c => { st with rm := c })
   | "cd" :: rest => answer (Cd.step st.cd rest) st (fun c => { st with cd := c })
   | "au" :: rest => answer (Au.step st.au rest) st (fun c => { st with au := c })
   | "v" :: rest => answer (V.step st.v rest) st (fun v => { st with v := v })
